@@ -355,14 +355,49 @@ func genC01(c *Ctx) {
 	defer func() { shortInner = false }()
 	c.rule = "mixed tx lists (0-14 txs, normal sizes from the compact hot list, 1-4 blobs per blob tx with sparse hot sizes, versions 0/1, 2-5 namespaces) x max in powers of two (tight so that appends are refused) x thresholds; Build, Construct(kept), each twice; non-trivial = distinct case where something was kept"
 	r := c.rng
+	// what an earlier Build returned (held by reference, with a private deep copy) must still be what it was
+	// after later Builds: outputs of different calls share no memory
+	var prevKept, prevKeptCopy, prevSq [][]byte
+	var prevWit map[string]any
+	var prevMax, prevThr int
 	for i := 0; i < 260*c.scale; i++ {
 		s := randSquareCase(c, r, false, true)
+		if i%9 == 4 {
+			// only blob transactions (the kept list is then the blob group alone)
+			var only []genTx
+			for _, t := range s.txs {
+				if t.blobs != nil {
+					only = append(only, t)
+				}
+			}
+			if len(only) > 0 {
+				s.txs = only
+			}
+		}
 		c.add("build", argsOf(s)...)
 		sq, kept, err := keptCase(s)
 		wit := map[string]any{"case": s.shape()}
 		if !c.check(err == nil, "Build", "error", wit) {
 			continue
 		}
+		if prevKept != nil {
+			same := len(prevKept) == len(prevKeptCopy)
+			for j := 0; same && j < len(prevKept); j++ {
+				same = bytes.Equal(prevKept[j], prevKeptCopy[j])
+			}
+			c.check(same, "Build", "the kept list returned by an earlier Build changed when Build was called again", prevWit)
+			if same {
+				sqp, err := square.Construct(prevKept, prevMax, prevThr)
+				c.check(err == nil && eqShares(prevSq, sqp), "Construct(kept)", "differs from the square built earlier, after another Build ran in between", prevWit)
+			}
+		}
+		prevKept = kept
+		prevKeptCopy = make([][]byte, len(kept))
+		for j := range kept {
+			prevKeptCopy[j] = append([]byte{}, kept[j]...)
+		}
+		prevSq = copyShares(sq)
+		prevWit, prevMax, prevThr = wit, s.max, s.thr
 		// kept: normals then blob txs, each group a subsequence of the input in order
 		var normals, blobtxs [][]byte
 		seenBlob := false
@@ -417,7 +452,8 @@ func genC02(c *Ctx) {
 		list = append(list, randSquareCase(c, r, true, r.Bool(50)))
 	}
 	nModel := len(list)
-	// Go side only: very long units on varint-width boundaries, many-blob PFBs
+	// Go side only: squares wider than 128 (indexes >= 16384), very long units on varint-width boundaries
+	list = append(list, bigSquareCases(c, r, true)...)
 	for _, s := range boundaryUnitCases(c, r) {
 		hasBlobTx := false
 		for _, t := range s.txs {
@@ -534,13 +570,24 @@ func genC03(c *Ctx) {
 	// a small accepted blob transaction
 	list = append(list, oversizedBlobCases(c, r)...)
 	list = append(list, boundaryUnitCases(c, r)...)
+	list = append(list, bigSquareCases(c, r, false)...)
+	var lastSq square.Square
 	for ci, s := range list {
 		if ci < nModel {
 			c.add("build", argsOf(s)...)
 		} else {
 			c.goOnly++
 		}
+		// the caller owns what it was handed: overwrite every byte of the previous square before building the
+		// next one (squares of different calls must not share memory, e.g. one cached padding share)
+		for _, sh := range lastSq {
+			b := sh.ToBytes()
+			for k := range b {
+				b[k] = 0xa5
+			}
+		}
 		sq, kept, err := keptCase(s)
+		lastSq = sq
 		wit := map[string]any{"case": s.shape()}
 		if !c.check(err == nil, "Build", "error", wit) {
 			continue
@@ -632,8 +679,17 @@ func genC04(c *Ctx) {
 	}()
 	c.rule = "constructed squares over ordered lists with several blobs (equal and different namespaces, versions 0/1, boundary lengths); every (blob tx, blob): recorded index vs verbatim shares, alignment, disjointness and order, BlobShareRange incl. out-of-range indexes; non-trivial = distinct case with >= 2 blobs"
 	r := c.rng
+	var list []sqCase
 	for i := 0; i < 160*c.scale; i++ {
-		s := randSquareCase(c, r, true, r.Bool(40))
+		list = append(list, randSquareCase(c, r, true, r.Bool(40)))
+	}
+	nModel := len(list)
+	list = append(list, bigSquareCases(c, r, true)...) // Go side only
+	for ci, s := range list {
+		c.noModel = ci >= nModel
+		if c.noModel {
+			c.goOnly++
+		}
 		_, kept, err := keptCase(s)
 		if err != nil {
 			c.check(false, "Build", "error", map[string]any{"case": s.shape()})
@@ -703,6 +759,7 @@ func genC04(c *Ctx) {
 			c.mark(s.shape())
 		}
 	}
+	c.noModel = false
 }
 
 // ---- C06 ----
@@ -727,6 +784,7 @@ func genC06(c *Ctx) {
 	// Go side only: units on varint-width boundaries aligned to share boundaries, many-blob PFBs, oversized blobs
 	list = append(list, boundaryUnitCases(c, r)...)
 	list = append(list, oversizedBlobCases(c, r)...)
+	list = append(list, bigSquareCases(c, r, false)...)
 	for ci, s := range list {
 		if ci < nModel {
 			ops := make([]string, 0, 2*len(s.txs)+2)
@@ -813,6 +871,7 @@ func genC07(c *Ctx) {
 	nModel := len(list)
 	// Go side only (compared with the harness's reference layout, not with the model)
 	list = append(list, boundaryUnitCases(c, r)...)
+	list = append(list, bigSquareCases(c, r, false)...)
 	for ci, s := range list {
 		if ci < nModel {
 			c.add("build", argsOf(s)...)
@@ -939,6 +998,59 @@ func boundaryUnitCases(c *Ctx, r *Rng) []sqCase {
 	return out
 }
 
+// bigSquareCases (Go side only, max 256): squares wider than 128, where share indexes reach 16384 = 128*128 -
+// the placeholder value of the estimate, a 3-byte varint.  (1) a blob whose aligned start is exactly 16384
+// (behind a 16256-share blob of subtree width 128); (2) about 7.8 MB of ordinary transactions so that every
+// blob index needs 3 bytes, with a wrapped PFB that fills its compact shares exactly / minus one / plus one
+// byte (worst-case = real size: no reserved padding behind the PFBs).
+func bigSquareCases(c *Ctx, r *Rng, ordered bool) []sqCase {
+	var out []sqCase
+	nss := blobNamespaces(r, 3)
+	mock := func(blobs []genBlob) []byte {
+		sizes := make([]uint32, len(blobs))
+		for j := range blobs {
+			sizes[j] = uint32(len(blobs[j].data))
+		}
+		return mockPFB(r.Bytes(mockPFBExtraBytes), sizes)
+	}
+	{
+		a := genBlob{ns: nss[0], data: make([]byte, 478+482*(16256-1))}
+		copy(a.data, r.Bytes(64))
+		b := genBlob{ns: nss[0], data: r.Bytes(1000)}
+		bl := []genBlob{a, b}
+		out = append(out, sqCase{max: 256, thr: 64, txs: []genTx{{raw: blobTxWithInner(mock(bl), bl), blobs: bl}}})
+		c.count("big_square_index_16384")
+	}
+	// numbers of blobs for which the delimited wrapped PFB (mock inner tx of 329 + 4n bytes, n three-byte indexes)
+	// ends exactly on a compact share boundary
+	var exact []int
+	for n := 1; n <= 260 && len(exact) < 2; n++ {
+		idx := make([]uint32, n)
+		for j := range idx {
+			idx[j] = 16384
+		}
+		w := len(refDelimited(refIndexWrapper(make([]byte, mockPFBExtraBytes+4*n), idx)))
+		if w >= 474 && (w-474)%478 == 0 {
+			exact = append(exact, n)
+		}
+	}
+	for _, n := range exact {
+		for _, d := range []int{0, 1} {
+			big := make([]byte, 16384*478+r.Intn(400))
+			copy(big, r.Bytes(64))
+			big[len(big)-1] = 0x5a
+			bl := make([]genBlob, n+d)
+			for j := range bl {
+				bl[j] = genBlob{ns: nss[1+j%2], data: r.Bytes(2 + r.Intn(300))}
+				bl[j].data[0] = byte(1 + r.Intn(100)) // reads as a plausible unit length if mistaken for compact data
+			}
+			out = append(out, sqCase{max: 256, thr: 64, txs: []genTx{{raw: big}, {raw: blobTxWithInner(mock(bl), bl), blobs: bl}}})
+			c.count("big_square_3_byte_indexes")
+		}
+	}
+	return out
+}
+
 // oversizedBlobCases: transaction lists containing one blob of 16383 / 16384 / 16385 shares (the
 // worst-case share index constant of builder.go), which a 128x128 square can never hold next to
 // its own PFB: refused on the estimate, possibly before or after accepted transactions.
@@ -980,6 +1092,55 @@ func shareOfOffset(p int) int {
 	return 1 + (p-474)/478
 }
 
+// pfbAtBoundaryCases: two blob transactions; the first carries a tiny blob in a high namespace, the second a
+// blob of 130-220 shares in a low namespace, which pushes the first one's blob past share index 128 (a 2-byte
+// varint).  The first inner tx is sized so that its REAL wrapped PFB (as it appears in the square) is exactly
+// 474, 475 or 476 bytes with its length prefix: the range of that PFB depends on transactions that come later.
+func pfbAtBoundaryCases(c *Ctx, r *Rng) []sqCase {
+	var out []sqCase
+	for _, target := range []int{475, 475, 953, 474, 476} {
+		var hi, lo []byte
+		for try := 0; try < 20 && (hi == nil || bytes.Equal(hi, lo)); try++ {
+			nss := blobNamespaces(r, 2)
+			hi, lo = nss[0], nss[1]
+			if bytes.Compare(hi, lo) < 0 {
+				hi, lo = lo, hi
+			}
+		}
+		if bytes.Equal(hi, lo) {
+			continue
+		}
+		small := []genBlob{{ns: hi, data: r.Bytes(1 + r.Intn(200))}}
+		bigb := []genBlob{{ns: lo, data: r.Bytes(478 + 482*(130+r.Intn(90)))}}
+		t2 := genTx{raw: blobTxWithInner(r.Bytes(50+r.Intn(100)), bigb), blobs: bigb}
+		inner := target - 35
+		var s sqCase
+		for it := 0; it < 8; it++ {
+			t1 := genTx{raw: blobTxWithInner(r.Bytes(inner), small), blobs: small}
+			s = sqCase{max: 32, thr: 64, txs: []genTx{t1, t2}}
+			sq, err := square.Construct(rawsOf(s.txs), s.max, s.thr)
+			if err != nil {
+				break
+			}
+			w, err := sq.WrappedPFBs()
+			if err != nil || len(w) == 0 {
+				break
+			}
+			got := len(refDelimited(w[0]))
+			if got == target {
+				out = append(out, s)
+				c.count("pfb_real_size_at_boundary")
+				break
+			}
+			inner += target - got
+			if inner < 1 {
+				break
+			}
+		}
+	}
+	return out
+}
+
 func genC12(c *Ctx) {
 	shortInner = true
 	defer func() { shortInner = false }()
@@ -990,10 +1151,16 @@ func genC12(c *Ctx) {
 	}()
 	c.rule = "ordered lists (as kept by greedy builds) with tx sizes ending exactly on share ends and PFBs one varint byte shorter than the worst case; TxShareRange for every index -2..len+1 vs the set of shares holding a byte of the unit (recomputed from stream offsets over the real wrapped PFBs), ParseTxs of exactly that range, splitter ShareRanges; non-trivial = distinct (case, index) spanning or starting after the first share"
 	r := c.rng
-	for i := 0; i < 150*c.scale; i++ {
-		s := randSquareCase(c, r, true, r.Bool(30))
+	special := pfbAtBoundaryCases(c, r)
+	for i := 0; i < 150*c.scale+len(special); i++ {
+		var s sqCase
+		if i < len(special) {
+			s = special[i]
+		} else {
+			s = randSquareCase(c, r, true, r.Bool(30))
+		}
 		// exact-fill ordinary transactions in ~1/3 of the cases
-		if r.Bool(35) {
+		if i >= len(special) && r.Bool(35) {
 			off := 0
 			for k := range s.txs {
 				if s.txs[k].blobs != nil {
